@@ -145,7 +145,8 @@ def make_pairs(ctx, ck, rules, text, L, nsample, Lall, tag, reuse=False):
     rng = ctx.rng
     alpha = K.alphabet(rules, rng)
     base = K.names_upto(alpha, L)
-    names = list(base) + [n + [K.DIGEST] for n in base]
+    # third block: the same names with a trailing ParametersSha256Digest component, which is NOT ignored (seed round 7)
+    names = list(base) + [n + [K.DIGEST] for n in base] + [n + [K.PDIGEST] for n in base]
     nb = len(base)
     nres = {i: len(K.run_match(ck, n)[1]) for i, n in enumerate(base) if n}
     hit = [i for i in sorted(nres) if nres[i]]
@@ -179,6 +180,10 @@ def make_pairs(ctx, ck, rules, text, L, nsample, Lall, tag, reuse=False):
             b += nb
         elif x < 0.40:
             a += nb; b += nb
+        elif x < 0.48:
+            a += 2 * nb
+        elif x < 0.54:
+            b += 2 * nb
         ask.add((a, b))
     pairs = []
     hitset = set(hit)
